@@ -348,6 +348,22 @@ def audit_molecule(text, tier, seed, props=None, max_paths=40):
             except Exception:
                 smi = "<unsanitisable>"     # reported by chemistry_report as a C05 violation
             distinct.add(("random", s, smi))
+    # a derived object of the public API: the mirrored molecule (elements reversed) is generated through the same code; its residues must still be
+    # whole copies of the written tokens (only results are judged: a mirror need not be generable)
+    try:
+        with warnings.catch_warnings():
+            warnings.simplefilter("ignore")
+            mirror = mol.gen_mirror() if len(mol._elements) >= 2 else None
+    except Exception:
+        mirror = None
+    if mirror is not None:
+        for s in range(2):
+            res, err, rng, aud = one_generation(mirror, None, None, seed * 1000 + 50 + s, [])
+            out["evaluations"] += 1
+            if err is None and res is not None:
+                for k, c, d in residue_report(res) + chemistry_report(res):
+                    viol.append({"key": k, "clause": c, "detail": dict(d, derived="gen_mirror()")})
+                distinct.add(("mirror", s))
     after = (str(mol), mol.generate_string(False), mol.generable)
     if before != after:
         viol.append({"key": "C10/Molecule.generate/frame[parsed-object-unchanged]", "clause": "generating never changes the parsed object",
